@@ -291,3 +291,9 @@ pub fn ascii_lowercase_stub(s: &str) -> String {
     }
     unsafe { String::from_utf8_unchecked(v) }
 }
+
+/// `std::alloc::dealloc` -> no-op (memory is leaked instead of freed). Functional properties do
+/// not depend on reuse of freed memory, harnesses `forget` their heap values anyway, and CBMC's
+/// deallocation model reports spurious precondition failures on some of these harnesses whose
+/// implicit assumption then cuts real paths (DESIGN A.9).
+pub unsafe fn dealloc_noop(_ptr: *mut u8, _layout: std::alloc::Layout) {}
